@@ -94,11 +94,18 @@ Definition gql_plan_of (q : query) : lop :=
   | RPlain items d => LReturn (ret_items items) d (opt_sort (q_order q) (opt_limit (q_limit q) (opt_skip (q_skip q) body)))
   | RAgg keys aggs => LAggregate keys aggs body
   end.
+(** Cypher's count(expr) becomes AggregateFunction::Count (count-star semantics: C08-K12) where GQL
+    emits CountNonNull *)
+Definition cypher_agg (a : aggx) : aggx :=
+  match ag_fn a with
+  | ACountNN => mkAgg ACount (ag_arg a) (ag_distinct a) (ag_alias a)
+  | _ => a
+  end.
 Definition cypher_plan_of (q : query) : lop :=
   let body := where_plan (q_where q) (chain_plan (q_pat q)) in
   match q_ret q with
   | RPlain items d => opt_limit (q_limit q) (opt_skip (q_skip q) (opt_sort (q_order q) (LReturn (ret_items items) d body)))
-  | RAgg keys aggs => LAggregate keys aggs body
+  | RAgg keys aggs => LAggregate keys (map cypher_agg aggs) body
   end.
 (** what the engine hands out for a plan *)
 Definition plan_rows (st : store) (p : lop) : res (list (list val)) :=
